@@ -46,11 +46,19 @@ impl ClosestNodes {
 
     /// Add a node.
     pub fn add(&mut self, node: Node) {
-        let seek = node.id().xor(&self.target);
-
         if node.already_exists(&self.nodes) {
             return;
         }
+
+        self.insert(node)
+    }
+
+    /// Insert a node at its sorted position, without the per IP check in [Self::add].
+    ///
+    /// For nodes that already passed that check, like the entries of a routing table,
+    /// where the outcome of the check would depend on the order they are visited in.
+    pub(crate) fn insert(&mut self, node: Node) {
+        let seek = node.id().xor(&self.target);
 
         if let Err(pos) = self.nodes.binary_search_by(|prope| {
             if prope.is_secure() && !node.is_secure() {
